@@ -123,13 +123,10 @@ func runC17(c *kit.Ctx) {
 					idx, _ := kit.ConstInt(cmp.Y)
 					if cmp.Op == token.EQL && int(idx) < len(sel.States) {
 						ch := sel.States[idx].Chan
-						if call, ok := ch.(*ssa.Call); ok {
-							switch kit.CalleeName(call) {
-							case "time.After":
-								r.waited = true
-							case ctxDone:
-								r.doneCase = true
-							}
+						if _, isTimer := timerChan(ch, sel); isTimer {
+							r.waited = true
+						} else if call, ok := ch.(*ssa.Call); ok && kit.CalleeName(call) == ctxDone {
+							r.doneCase = true
 						}
 					}
 					continue
@@ -200,14 +197,12 @@ func runC17(c *kit.Ctx) {
 		c.Check(sel.Blocking, sl, "select-blocking", sel.Pos(), "blocking select", "the select has a default case: it does not wait")
 		var after, done bool
 		for _, st := range sel.States {
-			call, ok := st.Chan.(*ssa.Call)
-			if !ok || st.Dir != types.RecvOnly {
+			if st.Dir != types.RecvOnly {
 				continue
 			}
-			switch kit.CalleeName(call) {
-			case "time.After":
-				after = call.Call.Args[0] == ssa.Value(boP)
-			case ctxDone:
+			if d, isTimer := timerChan(st.Chan, sel); isTimer {
+				after = d == ssa.Value(boP)
+			} else if call, ok := st.Chan.(*ssa.Call); ok && kit.CalleeName(call) == ctxDone {
 				done = call.Call.Value == ssa.Value(ctxP)
 			}
 		}
@@ -617,6 +612,12 @@ func retryLoopsWait(c *kit.Ctx) {
 					}
 				}
 			}
+			// (a') the same through a flag: this edge is the false edge of "if flag" whose true edge leads to the
+			// wait, and every value the flag can have is true or "counter > K" for a counter of this kind
+			if flagEdgeIsCounterBounded(from, to, waitBlocks) {
+				counterUsed++
+				return true
+			}
 			return false
 		}
 		cyc := kit.FindCycle(fn, func(b *ssa.BasicBlock) bool { return waitBlocks[b] }, removedEdge)
@@ -689,4 +690,123 @@ func counterNeverReset(v ssa.Value, inc ssa.Instruction) bool {
 	}
 	visit(ph)
 	return good
+}
+
+// timerChan recognises the channel of a one-shot timer that is running when `at` executes and returns its
+// duration: time.After(d), or the C field of a time.NewTimer(d) whose only other uses are Stop calls that
+// cannot run before `at` (a stopped or reset timer would not measure d).
+func timerChan(ch ssa.Value, at ssa.Instruction) (ssa.Value, bool) {
+	if call, ok := ch.(*ssa.Call); ok && kit.CalleeName(call) == "time.After" {
+		return call.Call.Args[0], true
+	}
+	l, ok := ch.(*ssa.UnOp)
+	if !ok || l.Op != token.MUL {
+		return nil, false
+	}
+	fa, ok := l.X.(*ssa.FieldAddr)
+	if !ok {
+		return nil, false
+	}
+	if f := kit.FieldVar(fa.X.Type(), fa.Field); f == nil || f.Name() != "C" {
+		return nil, false
+	}
+	mk, ok := fa.X.(*ssa.Call)
+	if !ok || kit.CalleeName(mk) != "time.NewTimer" {
+		return nil, false
+	}
+	for _, ref := range *mk.Referrers() {
+		switch r := ref.(type) {
+		case *ssa.FieldAddr:
+			if f := kit.FieldVar(r.X.Type(), r.Field); f == nil || f.Name() != "C" {
+				return nil, false
+			}
+		case *ssa.Call:
+			if kit.CalleeName(r) != "(*time.Timer).Stop" || r.Call.Args[0] != ssa.Value(mk) {
+				return nil, false
+			}
+			if kit.PathFrom(r, kit.PathQuery{Target: func(in ssa.Instruction) bool { return in == at }}) != nil {
+				return nil, false
+			}
+		case *ssa.Defer:
+			if kit.CalleeName(r) != "(*time.Timer).Stop" {
+				return nil, false
+			}
+		case *ssa.DebugRef:
+		default:
+			return nil, false
+		}
+	}
+	return mk.Call.Args[0], true
+}
+
+// flagEdgeIsCounterBounded: from ends in "if flag" (or "if !flag"), to is its flag-is-false successor, the other
+// successor is a block that waits, and the flag is a phi each of whose inputs is the constant true or a
+// comparison counter > K (K <= 1) of a counter that is incremented by one around every evaluation of the
+// comparison and never reset: control can take this edge at most K+1 times per counter.
+func flagEdgeIsCounterBounded(from, to *ssa.BasicBlock, waitBlocks map[*ssa.BasicBlock]bool) bool {
+	if len(from.Instrs) == 0 || len(from.Succs) != 2 || from.Succs[0] == from.Succs[1] {
+		return false
+	}
+	iff, ok := from.Instrs[len(from.Instrs)-1].(*ssa.If)
+	if !ok {
+		return false
+	}
+	cond, pol := kit.NormBool(iff.Cond, true)
+	ph, ok := cond.(*ssa.Phi)
+	if !ok {
+		return false
+	}
+	onTrue, onFalse := from.Succs[0], from.Succs[1]
+	if !pol {
+		onTrue, onFalse = onFalse, onTrue
+	}
+	if to != onFalse || !waitBlocks[onTrue] {
+		return false
+	}
+	n := 0
+	for _, e := range ph.Edges {
+		if k, isC := kit.BoolConst(e); isC {
+			if !k {
+				return false
+			}
+			continue
+		}
+		cmp, ok := kit.CanonCmp(e, true)
+		if !ok || cmp.Op != token.GTR || cmp.Bytes {
+			return false
+		}
+		if k, okk := kit.ConstInt(cmp.Y); !okk || k > 1 {
+			return false
+		}
+		cmpI, ok := e.(ssa.Instruction)
+		if !ok {
+			return false
+		}
+		counter := cmp.X
+		var inc ssa.Instruction
+		if bo, isBo := counter.(*ssa.BinOp); isBo && bo.Op == token.ADD {
+			// compared after the increment: every evaluation sees a value that was just incremented
+			if one, okk := kit.ConstInt(bo.Y); okk && one == 1 && counterIncrement(bo.X) == ssa.Instruction(bo) {
+				inc, counter = bo, bo.X
+			}
+		}
+		if inc == nil {
+			inc = counterIncrement(counter)
+			if inc == nil {
+				return false
+			}
+			// compared before the increment: no way from the comparison to the flag test around the increment
+			if kit.PathFrom(cmpI, kit.PathQuery{
+				Target: func(in ssa.Instruction) bool { return in == ssa.Instruction(iff) },
+				Stop:   func(in ssa.Instruction) bool { return in == inc },
+			}) != nil {
+				return false
+			}
+		}
+		if !counterNeverReset(counter, inc) {
+			return false
+		}
+		n++
+	}
+	return n > 0
 }
